@@ -21,7 +21,7 @@ from simkit.scenario import Case
 
 PROPERTY = "C07"
 LEVEL = "exploration"
-BUDGET = {"quick": 30, "thorough": 420}
+BUDGET = {"quick": 30, "thorough": 600}
 CHUNK = 1
 CASE_WALL = {"quick": 120, "thorough": 600}
 ENUMERATED = {"quick": False, "thorough": False}
@@ -29,7 +29,7 @@ SHRINK_FIELDS = ("ops",)
 RULE = ("'api' cases: one case = all sequences of length <= depth that start with a given 2-op prefix over the alphabet {A anon "
         "send, P plain send, R matching circuit becomes ready, W non-matching circuit ready (wrong hop count or exit without "
         "IPv8 flag), C circuit closing, X circuit removed, D tunnel community detached, T attached, N anonymity off, Y on, Q "
-        "burst of 101 anon sends, O a second TunnelEndpoint of the process toggles the same prefix and sends}; depth 5 in quick, 7 in thorough (complete). 'net' cases: seeded sequences of <= 30 operations "
+        "burst of 101 anon sends, O a second TunnelEndpoint of the process toggles the same prefix and sends}; depth 5 in quick, 6 in thorough (complete, 3 M sequences), lengths 7..10 sampled. 'net' cases: seeded sequences of <= 30 operations "
         "on a real node with real circuits incl. hop crashes. Non-trivial = a sequence with an anonymized send while no usable "
         "circuit exists, or after a circuit closed, or with a non-empty queue; distinct by operation string.")
 COMPONENTS = {"real": ["TunnelEndpoint (send, set_anonymity, set_tunnel_community, send_queue, notify_listeners)",
@@ -49,11 +49,16 @@ EXIT_IPV8 = 4
 
 
 def cases(tier: str, base_seed: int):  # noqa: ANN201
-    depth = 5 if tier == "quick" else 7
+    # quick: all sequences up to length 5 over 10 symbols; thorough: all up to length 6 over 12 symbols (3 M sequences), longer ones
+    # (7..10) sampled - length 7 complete would be 36 M sequences, about an hour on this machine
+    depth = 5 if tier == "quick" else 6
     alpha = ALPHA if tier == "thorough" else "APRWCXDNQO"
     n = 0
     net_i = 0
-    prefixes = ["".join(p) for p in itertools.product(alpha, repeat=2)]
+    plen = 2 if tier == "quick" else 3
+    prefixes = ["".join(p) for p in itertools.product(alpha, repeat=plen)]
+    if plen > 2:
+        yield {"scenario": "api", "seed": base_seed, "knobs": {}, "prefix": "", "depth": plen - 1, "alpha": alpha}
     for pre in prefixes:
         n += 1
         yield {"scenario": "api", "seed": base_seed + n, "knobs": {}, "prefix": pre, "depth": depth, "alpha": alpha}
@@ -62,6 +67,9 @@ def cases(tier: str, base_seed: int):  # noqa: ANN201
             yield _net_case(base_seed + 5000 + net_i)
     for i in itertools.count():
         yield _net_case(base_seed + 9000 + i)
+        if i % 3 == 0:
+            yield {"scenario": "api", "seed": base_seed + 50000 + i, "knobs": {}, "prefix": "", "depth": 0, "alpha": ALPHA,
+                   "random": {"n": 1500, "min": depth + 1, "max": 10}}
 
 
 def _net_case(seed: int) -> dict:
@@ -263,9 +271,19 @@ def run_api(c: Case, case: dict) -> dict:  # noqa: C901, PLR0915
         elif plain_expected:
             world.probe("plain_raw_ok")
 
-    for ln in range(max(0, 0), depth - len(pre) + 1):
-        for tail in itertools.product(alpha, repeat=ln):
-            seq = pre + "".join(tail)
+    def sequences():  # noqa: ANN202
+        if case.get("random"):
+            rr = world.stream("c07api")
+            spec = case["random"]
+            for _ in range(spec["n"]):
+                yield "".join(rr.choice(alpha) for _ in range(rr.randint(spec["min"], spec["max"])))
+            return
+        for ln in range(depth - len(pre) + 1):
+            for tail in itertools.product(alpha, repeat=ln):
+                yield pre + "".join(tail)
+
+    for _once in (0,):
+        for seq in sequences():
             total += 1
             run(seq)
             if "A" in seq or "Q" in seq:
